@@ -44,10 +44,10 @@ class Rec:
         self.calls.append((res, err))
 
 
-def _mk_acc(inp, N=3, ro=False):
+def _mk_acc(inp, N=3, ro=False, **confkw):
     now = inp.real('now', 0)
     clock = so.Clock(now)
-    o, tr = so.make(None if ro else 'a', IDS[1:N] if not ro else IDS[:N], clock, inp, cls=Acc)
+    o, tr = so.make(None if ro else 'a', IDS[1:N] if not ro else IDS[:N], clock, inp, cls=Acc, **confkw)
     cmds.install(inp)
     return o, tr, now
 
@@ -216,13 +216,14 @@ def CB1(inp, k, ro=False, batch=True):
     exactly that index (forwarded: reply carries index and term); follower with a leader forwards once with a fresh
     request id; without leader: kept (wait) or MISSING_LEADER once; forwarded-to-non-leader: NOT_LEADER reply;
     nothing is ever appended by a non-leader; no callback fires twice."""
-    o, tr, now = _mk_acc(inp, 3, ro)
+    o, tr, now = _mk_acc(inp, 3, ro, appendEntriesUseBatch=batch)
     p = so.sym_state(inp, o, now, 2, term_hi=T_HI, base_hi=2, connected=('b', 'c') if not ro else ('a', 'b', 'c'))
     wait = inp.flag('waitLeader')
     o.conf.commandsWaitLeader = wait
-    o.conf.appendEntriesUseBatch = batch
     if p.role == L:
         put(o, 'newAppendEntriesTime', now + 1)
+        for v in p.next.values():
+            inp.assume(v > p.base)            # below the first log index the leader needs a snapshot, which this state does not have
     subs = []
     for i in range(k):
         kind = ('cb', 'nocb', 'fwd')[inp.choice('sub%d' % i, 3)]
